@@ -214,15 +214,24 @@ func progExtendsCrossFile(sameName bool, twoLevel bool) *Program {
 
 // sameSvc: the base services carry the SAME simple name as the derived one (service names are unique per file only)
 func progExtendsCrossFileS(sameName, twoLevel, sameSvc bool) *Program {
+	return progExtendsCrossFileD(sameName, twoLevel, sameSvc, false)
+}
+
+// dotted: the included files carry a dot in their base name (inc.v1.thrift): the include alias is "inc.v1"
+func progExtendsCrossFileD(sameName, twoLevel, sameSvc, dotted bool) *Program {
+	incFile, rootFile := "inc.thrift", "root.thrift"
+	if dotted {
+		incFile, rootFile = "inc.v1.thrift", "root.v2.thrift"
+	}
 	baseName, rootName := "Base", "RootSvc"
 	if sameSvc {
 		baseName, rootName = "Main", "Main"
 	}
-	root := &File{Path: "a/b/root.thrift", NS: "root"}
+	root := &File{Path: "a/b/" + rootFile, NS: "root"}
 	rootS := root.AddStruct("struct", "RootMsg", fld(1, "r", T(Double)))
 	rootSvc := root.AddService(rootName, nil, fn("RootCall", Ref(rootS), Ref(rootS)))
 	rootSvc.Funcs[0].Feat = "extends-crossfile,inherited-2nd-level"
-	inc := &File{Path: "a/b/inc.thrift", NS: "inc"}
+	inc := &File{Path: "a/b/" + incFile, NS: "inc"}
 	incReqName := "IncReq"
 	if sameName {
 		incReqName = "Req"
@@ -231,13 +240,13 @@ func progExtendsCrossFileS(sameName, twoLevel, sameSvc bool) *Program {
 	iResp := inc.AddStruct("struct", "IncResp", fld(1, "y", T(String)))
 	var ext *Service
 	if twoLevel {
-		inc.Include("root.thrift", root)
+		inc.Include(rootFile, root)
 		ext = rootSvc
 	}
 	baseSvc := inc.AddService(baseName, ext, fn("BaseCall", Ref(iResp), Ref(iReq)))
 	baseSvc.Funcs[0].Feat = "extends-crossfile,inherited"
 	f := newMain("main")
-	f.Include("inc.thrift", inc)
+	f.Include(incFile, inc)
 	mReq := f.AddStruct("struct", "Req", fld(1, "main_only", T(String)))
 	mResp := f.AddStruct("struct", "Resp", fld(1, "x", T(String)))
 	f.AddService("Main", baseSvc, fn("Own", Ref(mResp), Ref(mReq)))
@@ -252,6 +261,10 @@ func progExtendsCrossFileS(sameName, twoLevel, sameSvc bool) *Program {
 	}
 	if sameSvc {
 		name += ",same-service-name"
+		baseSvc.Funcs[0].Feat = name + ",inherited"
+	}
+	if dotted {
+		name += ",dotted-include-names"
 		baseSvc.Funcs[0].Feat = name + ",inherited"
 	}
 	return &Program{Name: name, Main: f, Feat: name}
@@ -291,6 +304,23 @@ func progFuncs() *Program {
 	p5 := throws(fn("DelThrows", Ref(r), Ref(r)), 7, "e", Ref(ex))
 	f.AddService("Svc", nil, ow, v, vt, sc, li, p2, p3, p4, p5)
 	return &Program{Name: "functions", Main: f, Feat: "functions"}
+}
+
+// progSuppressed: field suppression annotations. One struct type reached from a request, from a response (directly
+// and through containers) and from an exception, in two methods: api.none hides a field on the response side only.
+func progSuppressed() *Program {
+	f := newMain("sup")
+	d := f.AddStruct("struct", "Detail", fld(1, "a", T(String)), anno(fld(2, "hidden", T(String)), "api.none", ""), fld(3, "c", T(I32)),
+		anno(fld(4, "gone", T(String)), "dynamicgo.deprecated", ""))
+	req := f.AddStruct("struct", "Req", fld(1, "d", Ref(d)), fld(2, "l", ListOf(Ref(d))), anno(fld(3, "q", T(String)), "api.none", ""))
+	resp := f.AddStruct("struct", "Resp", fld(1, "d", Ref(d)), fld(2, "m", MapOf(T(String), Ref(d))), anno(fld(3, "top", T(String)), "api.none", ""))
+	ex := f.AddStruct("exception", "Exc", fld(1, "d", Ref(d)), anno(fld(2, "msg", T(String)), "api.none", ""))
+	m := throws(fn("M", Ref(resp), Ref(req)), 1, "e", Ref(ex))
+	n := throws(fn("N", Ref(resp), Ref(req)), 2, "x", Ref(ex))
+	n.ArgID, n.ArgName = 2, "r"
+	o := throws(fn("ExcFirst", Ref(req), Ref(resp)), 1, "e", Ref(ex))
+	f.AddService("Svc", nil, m, n, o)
+	return &Program{Name: "suppressed-fields", Main: f, Feat: "suppressed-fields", DescOnly: true}
 }
 
 func progDefaults() *Program {
@@ -655,8 +685,8 @@ func partAPrograms(tier string) []*Program {
 	ps := []*Program{shapes,
 		progScalars(), progContainers(), progTypedefs(), progEnums(), progUnionsExceptions(), progSelfRec(), progMutRec(),
 		progIncludes(), progExtendsSameFile(), progExtendsCrossFile(false, false), progExtendsCrossFile(true, false),
-		progExtendsCrossFile(false, true), progExtendsCrossFile(true, true), progExtendsCrossFileS(false, false, true), progExtendsCrossFileS(false, true, true), progMultiService(), progFuncs(),
-		progDefaults(), progAliases(), progBase("root-only"), progBase("nested-first"), progBase("root-first"),
+		progExtendsCrossFile(false, true), progExtendsCrossFile(true, true), progExtendsCrossFileS(false, false, true), progExtendsCrossFileS(false, true, true), progExtendsCrossFileD(false, false, false, true), progExtendsCrossFileD(false, true, false, true), progMultiService(), progFuncs(),
+		progDefaults(), progAliases(), progBase("root-only"), progBase("nested-first"), progBase("root-first"), progSuppressed(),
 	}
 	return ps
 }
